@@ -59,17 +59,16 @@ class Taper(om.ExplicitComponent):
         num_x, num_y, _ = mesh.shape
         ref_axis = self.ref_axis_pos * te + (1 - self.ref_axis_pos) * le
         x = ref_axis[:, 1]
-        span = x[-1] - x[0]
 
         # If symmetric, solve for the correct taper ratio, which is a linear
-        # interpolation problem
+        # interpolation problem between the tip and the root of this surface
         if symmetry:
-            xp = np.array([-span, 0.0])
+            xp = np.array([x[0], x[-1]])
 
         # Otherwise, we set up an interpolation problem for the entire wing, which
         # consists of two linear segments
         else:
-            xp = np.array([-span / 2, 0.0, span / 2])
+            xp = np.array([x[0], x[(num_y - 1) // 2], x[-1]])
 
         # The interpolation is linear in the taper ratio: taper = 1 + (taper_ratio - 1) * weight of the tip value.
         # Written this way it also carries a complex-step perturbation of the taper ratio.
@@ -89,18 +88,17 @@ class Taper(om.ExplicitComponent):
         num_x, num_y, _ = mesh.shape
         ref_axis = self.ref_axis_pos * te + (1 - self.ref_axis_pos) * le
         x = ref_axis[:, 1]
-        span = x[-1] - x[0]
 
         # If symmetric, solve for the correct taper ratio, which is a linear
-        # interpolation problem
+        # interpolation problem between the tip and the root of this surface
         if symmetry:
-            xp = np.array([-span, 0.0])
+            xp = np.array([x[0], x[-1]])
             fp = np.array([taper_ratio, 1.0])
 
         # Otherwise, we set up an interpolation problem for the entire wing, which
         # consists of two linear segments
         else:
-            xp = np.array([-span / 2, 0.0, span / 2])
+            xp = np.array([x[0], x[(num_y - 1) // 2], x[-1]])
             fp = np.array([taper_ratio, 1.0, taper_ratio])
 
         taper = np.interp(x, xp, fp)
